@@ -35,7 +35,8 @@ MESH_CONE_HEADER = """From Coq Require Import QArith List.
 From D3 Require Import Base.Vec Checker.Shapes Checker.ShapesMeshCone.
 Import ListNotations.
 """
-HISTORY_SHARE = 0.4  # share of the cases (kinds with update_pose) whose collider is brought to its pose by update_pose calls
+MODEL_MAX_VERTICES = 400   # larger meshes are not run through the Coq model / certificates (exact Python oracle only)
+HISTORY_SHARE = dict(box=0.6, mesh=0.5)  # default 0.4; share of the cases (kinds with update_pose) whose collider is brought to its pose by update_pose calls
 HIST_DIRS = 4        # = harness/impl/c03.py HIST_DIRS
 CASE_CPU = 40        # seconds of user CPU time one case may burn in a shared worker (normal: < 1 s)
 CONFIRM_CPU = 600    # ... when re-run alone, before it is reported as non-terminating
@@ -139,7 +140,7 @@ def gen_case(rng, kind, stream):
     if rng.random() < 0.3:
         margin = rng.choice(sc.LATTICE) if stream in ("lattice", "exact") else 10 ** rng.uniform(-2, 1)
     history = None
-    if kind in sc.POSE_KINDS and rng.random() < HISTORY_SHARE:
+    if kind in sc.POSE_KINDS and rng.random() < HISTORY_SHARE.get(kind, 0.4):
         # the collider reaches the pose of `sh` through update_pose calls on a re-used pose array
         history = sc.gen_pose_history(rng, sh, stream)
         if kind in ("sphere", "disk", "ellipse"):
@@ -219,9 +220,97 @@ def face_normal_case(rng):
     return dict(shape=sh, margin=None, dirs=dirs, dir_cls=cls, sweep=True)
 
 
+def ring_mesh(rng, n_seg, n_rings):
+    """Convex 'barrel': n_rings rings of n_seg vertices on ellipses (same angular positions, random phase;
+    the ring radius shrinks slightly towards the caps so that every ring vertex is a hull vertex) + one centre
+    vertex per cap (fan).  The vertex graph is LONG: its diameter is ~ n_seg / 2 edges for n ~ n_rings * n_seg
+    vertices, whereas random hulls / sphere-like meshes have a diameter of order sqrt(n).  Edge sizes stay >= 1e-2.
+    -> (vertices, triangles, info) in the mesh frame, vertex numbering shuffled in half of the cases."""
+    edge = 10 ** rng.uniform(math.log10(0.0125), math.log10(0.05))
+    a = max(1.0, min(45.0, n_seg * edge / (2 * math.pi)))
+    ratio = rng.choice([1.0, 1.0, rng.uniform(0.6, 1.0)])
+    b = a * ratio
+    length = rng.uniform(0.2, 1.0) * a
+    phase = rng.uniform(0, 2 * math.pi) if rng.random() < 0.7 else 0.0
+    zs = [length * (k / (n_rings - 1) - 0.5) for k in range(n_rings)]
+    vs = []
+    for z in zs:
+        f = 1.0 - 0.05 * (2 * z / length) ** 2 if n_rings > 2 else 1.0
+        for i in range(n_seg):
+            th = phase + 2 * math.pi * i / n_seg
+            vs.append([a * f * math.cos(th), b * f * math.sin(th), z])
+    cb, ct = len(vs), len(vs) + 1
+    vs.append([0.0, 0.0, zs[0]])
+    vs.append([0.0, 0.0, zs[-1]])
+    tris = []
+    top = (n_rings - 1) * n_seg
+    for i in range(n_seg):
+        j = (i + 1) % n_seg
+        tris.append([j, i, cb])
+        tris.append([top + i, top + j, ct])
+        for k in range(n_rings - 1):
+            lo, hi = k * n_seg, (k + 1) * n_seg
+            if (i + k) % 2 == 0 or rng.random() < 0.5:
+                tris += [[lo + i, lo + j, hi + j], [lo + i, hi + j, hi + i]]
+            else:
+                tris += [[lo + i, lo + j, hi + i], [lo + j, hi + j, hi + i]]
+    if rng.random() < 0.5:
+        order = list(range(len(vs)))
+        rng.shuffle(order)
+        inv = {o: i for i, o in enumerate(order)}
+        vs = [vs[o] for o in order]
+        tris = [[inv[x] for x in t] for t in tris]
+    return vs, tris, dict(a=a, b=b, length=length, phase=phase, n_seg=n_seg, n_rings=n_rings)
+
+
+def ring_mesh_case(rng, n_seg, n_rings, stream="random"):
+    """MeshGraph over a ring mesh, asked along directions whose extreme vertex is FAR (in edges) from the six
+    shortcut vertices (the +-x / +-y / +-z extremes of the mesh frame) and from the cached vertex of the previous
+    query: lateral directions whose maximiser sits halfway between two shortcut vertices, their opposites, repeats;
+    each query is also put to a new object (cached start vertex = first vertex of the triangulation)."""
+    vs, tris, info = ring_mesh(rng, n_seg, n_rings)
+    Rm = sc.gen_rotation(rng, stream)
+    t = sc.gen_translation(rng, stream)
+    sh = dict(kind="mesh", stream="ring", R=Rm, t=t, vs=vs, triangles=tris, ring=info)
+    a, b = info["a"], info["b"]
+
+    def lateral(theta, tilt):
+        """direction (world frame) whose maximiser on the ellipse is the point of parameter theta"""
+        ld = [math.cos(theta) / a, math.sin(theta) / b, 0.0]
+        n = sc.normf(ld)
+        ld = [ld[0] / n, ld[1] / n, tilt]
+        return sc.matvec(Rm, ld)
+    dirs, cls = [], []
+    quad = [0, 1, 2, 3]
+    rng.shuffle(quad)
+    th0 = math.pi / 4 + quad[0] * math.pi / 2 + rng.uniform(-0.2, 0.2)
+    d0 = lateral(th0, rng.uniform(-0.1, 0.1))
+    seq = [("far", d0), ("repeat", list(d0)), ("opposite", [-x for x in d0]), ("repeat", list(d0))]
+    for q in quad[1:3]:
+        seq.append(("far", lateral(math.pi / 4 + q * math.pi / 2 + rng.uniform(-0.3, 0.3), rng.uniform(-0.3, 0.3))))
+    seq.append(("lateral", lateral(rng.uniform(0, 2 * math.pi), 0.0)))
+    seq.append(("random", sc.gen_direction(rng, sh, "random")))
+    seq.append(("near_cap", lateral(rng.uniform(0, 2 * math.pi), rng.choice([-1.0, 1.0]) * rng.uniform(5.0, 50.0))))
+    seq += [(c, d) for c, d in feature_dirs(sh) if c in ("shape_z+", "shape_x", "axis_-y")]
+    seq.append(("far", lateral(math.pi / 4 + quad[3] * math.pi / 2 + rng.uniform(-0.1, 0.1), 0.02)))
+    for c, d in seq:
+        cls.append(c)
+        dirs.append([float(x) + 0.0 for x in d])
+    return dict(shape=sh, margin=rng.choice([None, None, 0.25]), dirs=dirs, dir_cls=cls, shared_dir_buffer=rng.random() < 0.5)
+
+
+RING_SIZES = dict(quick=[(48, 2), (90, 3), (1000, 2), (2000, 2), (3000, 2)],
+                  thorough=[(48, 2), (64, 3), (90, 3), (120, 2), (600, 3), (800, 2), (1000, 3), (1600, 2), (2000, 2), (2400, 2),
+                            (3000, 2), (4000, 2)])
+
+
 def gen_cases(rng, tier):
     per = 4 if tier == "quick" else 60
     cases = [face_normal_case(rng) for _ in range(per)]
+    # long vertex graphs: small ones go through the model and the certificates, the large ones (hundreds of
+    # edges between the shortcut vertices) are judged by the exact oracle only
+    for n_seg, n_rings in RING_SIZES["quick" if tier == "quick" else "thorough"]:
+        cases.append(ring_mesh_case(rng, n_seg, n_rings, "exact" if n_seg < 200 and rng.random() < 0.3 else "random"))
     for kind in sc.KINDS:
         for stream, share in (("random", 1.0), ("lattice", 0.6), ("exact", 0.6), ("near", 0.3), ("degen", 0.75)):
             n = int(per * share * (2 if kind == "mesh" else 1))
@@ -323,6 +412,10 @@ def unique_margin(sh, d):
         return False
     if k == "sphere":
         return True
+    if sc.is_big_poly(sh):
+        import numpy as np
+        pr = np.sort(sc._big_arrays(sh) @ np.array(d, dtype=float))[::-1]
+        return bool(pr[0] - pr[1] > 1e-7 * max(1.0, float(np.max(np.abs(pr)))))
     if k in ("hull", "mesh", "box"):
         vals = sorted((float(sc.qdot(p, sc.Fv(d))) for p in sc.world_vertices(sh)), reverse=True)
         scale = max(1.0, max(abs(v) for v in vals))
@@ -440,7 +533,7 @@ def cert_jobs(case, r):
     The shape expression is bound once per case."""
     from .. import narrow
     sh = case["shape"]
-    if "sup" not in r:
+    if "sup" not in r or sc.is_big_poly(sh):
         return [], None
     m = case["margin"]
     L = sc.shape_L(sh, m or 0.0)
@@ -767,8 +860,12 @@ def run(tier, seed, replay=None):
 
     # model on the same cases
     exprs, idx = [], []
+    n_large = 0
     for i, (c, r) in enumerate(zip(cases, results)):
         if "build_exc" in r or "exc" in r:
+            continue
+        if len(c["shape"].get("vs") or []) > MODEL_MAX_VERTICES:
+            n_large += 1            # association lists and unary indices: the model run is quadratic in the vertex count
             continue
         exprs.append(coq_case_expr(c, r))
         idx.append(i)
@@ -788,6 +885,7 @@ def run(tier, seed, replay=None):
         R.corr_broken.append(f"model evaluation failed: {str(e)[:500]}")
     R.cov["traces_validated_against_impl"] = len(idx) - ndiff
     R.cov["correspondence_disagreements"] = ndiff
+    R.cov["large_meshes_judged_by_exact_oracle_only"] = n_large
     R.cov["queries_compared_exactly"] = stats.get("exact_queries", 0)
     R.cov["start_vertex_sweep_queries"] = stats.get("sweep_queries", 0)
 
